@@ -16,6 +16,27 @@ CHECKS = {
              "inside a critical section are excluded by eq_mtx; internal aios are covered as far as the traced tests reach them.",
         technique="TLA+ model checking (TLC) + gated edge-cover replay + TLC trace validation of hook traces",
         ref="DESIGN.md section 4, C02"),
+    "C04": dict(
+        text="TLA+ specs proto/Req.tla (contexts, request ids by tag, send queue, per-pipe context lists, retry queue and tick timer "
+             "under virtual time, retained-copy ownership ghost) and proto/Rep.tla (contexts, per-pipe held request and send queue, "
+             "backtrace/pipe capture, hop limit, peer and pipe loss) in macro steps, model checked for: a reply is delivered only for the "
+             "current outstanding request and once; stale/unknown/no-bit/short replies change nothing else; the reply goes to the "
+             "pipe and with the backtrace of the context's most recent request; ESTATE rules; readiness.  TLC -simulate behaviours "
+             "(depth 35) are replayed on the real sockets; the driver is the peer (it sees ids on the wire, injects every reply class).",
+        note="Trusted: TLC, harness, hooks, ASan/UBSan. 2 contexts, 2-3 pipes; macro-step grain; raw mode (xreq/xrep) is covered by C13.",
+        technique="TLA+ model checking (TLC) + simulation replay through a harness transport with virtual time",
+        ref="DESIGN.md section 4, C04"),
+    "C12": dict(
+        category="model_checking",
+        text="proto/Req.tla: invariants NoOrphan (an unanswered request is queued for a pipe, or has a resend scheduled on a running "
+             "timer, or - resending disabled - is remembered by the live pipe it was written to), ResendBounded, NoResendWhenDisabled, "
+             "QueueDrained on the complete bounded graph; the liveness claim EventuallyAnswered checked by TLC under weak fairness of "
+             "the last replier and of time (violated without the fairness of time: not vacuous); TLC -simulate behaviours with pipe "
+             "loss, silent repliers and virtual-time ticks replayed on the real socket, every (re)transmission observed on the wire.",
+        note="Trusted: TLC, harness, NNG_VERIF virtual clock, ASan/UBSan. Liveness is a model result within a budget of virtual time; "
+             "redial is the harness connect action, not core/dialer.c.",
+        technique="TLA+ model checking incl. liveness under fairness (TLC) + simulation replay with virtual time",
+        ref="DESIGN.md section 4, C12"),
     "C05": dict(
         text="TLA+ specs proto/Sub.tla (contexts, topic sets, prefix match, per-context queues with drop-oldest/drop-new, requeue "
              "filter on unsubscribe, receive pollable) and proto/Pub.tla (clone per subscriber, per-pipe queue, drop-oldest, never "
